@@ -409,6 +409,24 @@ class Interp:
     def binop(self, op, a, b, node=None):
         a = _unlin(a)
         b = _unlin(b)
+        for x, y, refl in ((a, b, False), (b, a, True)):
+            if hasattr(x, "a_binop"):
+                r = x.a_binop(self, op, y, refl, node)
+                if r is not NotImplemented:
+                    return r
+        if op is ast.Add and ((isinstance(a, (str, AbsStr, Ch)) and b is None) or (a is None and isinstance(b, (str, AbsStr, Ch)))):
+            raise RaiseEx("TypeError", node)
+        if op is ast.Mod and isinstance(a, str) and a.count("%s") == a.count("%") and a.count("%s") >= 1:
+            vals = list(b) if isinstance(b, tuple) else [b]
+            if len(vals) == a.count("%s") and all(isinstance(v, (str, AbsStr, Ch)) or hasattr(v, "a_len") for v in vals) \
+                    and any(_has_abs(v) for v in vals):
+                parts = a.split("%s")
+                atoms = []
+                for i, part in enumerate(parts):
+                    atoms.append(part)
+                    if i < len(vals):
+                        atoms.append(vals[i])
+                return simplify_str(AbsStr(atoms))
         conc = (int, float, str, list, tuple, bytes, bool)
         if isinstance(a, conc) and isinstance(b, conc) and not _has_abs(a) and not _has_abs(b):
             try:
@@ -822,6 +840,8 @@ class Interp:
                     total = total + Lin.of(sy)
             elif _is_rep(a):
                 total = total + a.count.scale(len(a.lit))
+            elif hasattr(a, "a_len"):
+                total = total + Lin.of(a.a_len(self))
             else:
                 return None
         return None
@@ -1121,6 +1141,8 @@ class Interp:
             return None
         if name == "len":
             v = args[0]
+            if hasattr(v, "a_len"):
+                return v.a_len(self)
             if isinstance(v, (list, tuple, dict, str)):
                 return len(v)
             if isinstance(v, Ch):
@@ -1137,6 +1159,10 @@ class Interp:
                             total = total + Lin.of(s)
                     elif _is_rep(a):
                         total = total + a.count.scale(len(a.lit))
+                    elif hasattr(a, "a_len"):
+                        total = total + Lin.of(a.a_len(self))
+                    else:
+                        return Opaque("len", args)
                 return _norm_lin(total)
             return Opaque("len", args)
         if name == "range":
